@@ -7,4 +7,5 @@ INVARIANT TypeOK
 INVARIANT DefaultsKept
 INVARIANT NeverContradictory
 INVARIANT Emit
+PROPERTY RefusalIsFinal
 CHECK_DEADLOCK FALSE
